@@ -33,7 +33,9 @@ NT_RULE = ('three case kinds drawn per case index after a directed list: (clamp)
            'steered to -2..+2 eV / -1..+3 eV around the reactants; (bep) reactions of all three classes whose TS is a '
            'BEP (8 descriptors, slope 0-1, intercept 0-60 kcal/mol, parent and OpenMKM class); (A) Reaction.get_A by '
            'the entropy route and ChemkinReaction / SurfaceReaction.get_A with 1-2 catalyst sites (1e-11..1e-8 '
-           'mol/cm2), 0-3 surface reactants, 4 site-density operations, unit strings and Units objects.  '
+           'mol/cm2), 0-3 surface reactants, 4 site-density operations, unit strings and Units objects; 25 % of the '
+           'bep cases share the BEP object with 1-2 sibling reactions (drawn evaluation order, first one revisited); '
+           '40 % of the site cases use surface names related to the bulk species name.  '
            'non-trivial = a clamp is active (max picks 0 or delta), or a reverse-direction value was decided, or '
            'n_surf != 1; distinct = distinct canonical JSON')
 REQUIRED_ORACLES = ['B1', 'B2', 'B3', 'B1u', 'B2u', 'B3u', 'INV']
@@ -44,10 +46,15 @@ REQUIRED_CLASSES = (['B1:ChemkinReaction', 'B1:SurfaceReaction', 'B1:ts', 'B1:no
                      'barrierless', 'high_barrier'] + _WIN +
                     ['desc:' + d for d in DESCRIPTORS] +
                     ['bep:BEP', 'bep:omkm.BEP', 'slope:0', 'slope:1', 'slope:inner', 'B2:Reaction',
-                     'B2:ChemkinReaction', 'B2:SurfaceReaction'] +
+                     'B2:ChemkinReaction', 'B2:SurfaceReaction', 'bep:shared', 'bep:shared:first=main',
+                     'bep:shared:first=sibling', 'entropy_state:default', 'entropy_state:reactants',
+                     'entropy_state:products', 'entropy_state:None'] +
                     ['A:Reaction', 'A:ChemkinReaction', 'A:SurfaceReaction', 'A:no_ts', 'A:no_entropy', 'A:entropy',
                      'n_surf:0', 'n_surf:1', 'n_surf:2', 'n_surf:3', 'op:sum', 'op:min', 'op:max', 'op:mean',
-                     'sites:2', 'units:str', 'units:Units', 'gas+surf', 'bulk_reactant', 'm:None'])
+                     'sites:2', 'units:str', 'units:Units', 'gas+surf', 'bulk_reactant', 'm:None',
+                     'bulk_reactant:ChemkinReaction', 'bulk_reactant:SurfaceReaction',
+                     'names:substring_of_bulk:ChemkinReaction', 'names:substring_of_bulk:SurfaceReaction',
+                     'names:superstring_of_bulk'])
 REQUIRED_PROBES = ['ChemkinReaction.get_HoRT_act', 'ChemkinReaction.get_H_act', 'ChemkinReaction.get_GoRT_act',
                    'ChemkinReaction.get_G_act', 'SurfaceReaction.get_HoRT_act', 'SurfaceReaction.get_H_act',
                    'SurfaceReaction.get_GoRT_act', 'SurfaceReaction.get_G_act', 'BEP._get_descriptor_val',
@@ -66,8 +73,15 @@ ASSUMPTIONS = [
     'statement restricts the forward/reverse relation to the delta descriptors',
     'reverse barrier through the transition-state enthalpy (H_BEP - H_products) is compared with the relation only '
     'for delta_H / rev_delta_H (for the E descriptors it differs by dH - dE by construction)',
-    'G clamp with a BEP transition state takes its candidates from the reaction\'s own unclamped get_delta_GoRT '
-    '(BEP entropy convention is not part of the property); H clamp candidates use the barrier rebuilt from the relation',
+    'G through a BEP transition state uses the documented BEP option entropy_state in {reactants (default), products, '
+    'None}: S_TS = S(reactants) / S(products) / 0 and G_TS = H_reactants + E_f/RT - S_TS, rebuilt from the species; '
+    'checked on BEP.get_SoR / get_GoRT, the G clamps (ChemkinReaction / SurfaceReaction) and Reaction.get_GoRT_act, with '
+    'global conditions only (the reaction strips per-species blocks before calling the BEP "species", so the BEP\'s own '
+    'state evaluation does not see them -- routing is C08\'s subject)',
+    'a shared BEP object (one BEP as transition state of 2-3 reactions) must give every clause for each reaction with '
+    'that reaction\'s own descriptor, in any evaluation order (the first reaction is revisited after its siblings)',
+    'surface species whose names are substrings / superstrings of their site\'s bulk species name (PT, P, B, (B), '
+    'PT(B)H on bulk PT(B)) are surface reactants like any other; only the species named exactly like the bulk is bulk',
     'surface reactants carry integer coefficients (0-3 counting stoichiometry); sigma = operation over the site '
     'densities of the surface reactants, each repeated by its coefficient; bulk species and gas species do not count',
     'ChemkinReaction.get_A with surface reactants is driven with NASA-7 reactants only (Chemkin thermdat species; '
@@ -193,7 +207,7 @@ def _gen_clamp(rng, cls=None, has_ts=None):
     return spec
 
 
-def _gen_bep(rng, descriptor=None, rcls=None, bep_cls=None, slope=None):
+def _gen_bep(rng, descriptor=None, rcls=None, bep_cls=None, slope=None, shared=None):
     descriptor = descriptor or rng.choice(DESCRIPTORS)
     if descriptor.endswith('_E'):
         rcls = rcls or rng.choice(['Reaction', 'SurfaceReaction'])
@@ -219,6 +233,22 @@ def _gen_bep(rng, descriptor=None, rcls=None, bep_cls=None, slope=None):
     spec['ts'] = [[spec['bep']['name'], 1.0]]
     spec['units'] = rng.sample(ACT_UNITS, 2)
     spec['bep_units'] = rng.sample(BEP_UNITS, 2)
+    # one BEP object is the transition state of a family of reactions (normal use): 1-2 siblings of the same
+    # class with their own species (= their own descriptor value), evaluated in a drawn order, revisiting
+    if (rng.random() < 0.25) if shared is None else shared:
+        sibs = []
+        for _ in range(rng.choice([1, 1, 2])):
+            sb = RG.gen_reaction(rng, flavor=flavor, cls=rcls, ts=False)
+            if flavor != 'statmech' and rng.random() < 0.6:
+                sb['cond'] = spec['cond']
+                _steer(rng, sb)
+            sibs.append({'species': sb['species'], 'reactants': sb['reactants'], 'products': sb['products']})
+        spec['siblings'] = sibs
+        n = len(sibs) + 1
+        first = rng.randrange(n)
+        order = [first] + [i for i in rng.sample(range(n), n) if i != first]
+        spec['order'] = order + [order[0]] + ([order[1]] if rng.random() < 0.5 else [])
+    spec['entropy_states'] = rng.sample(['default', 'reactants', 'products', 'None'], 2)
     return spec
 
 
@@ -235,7 +265,8 @@ GAS_POOL = ['H2', 'O2', 'CO', 'H2O', 'N2', 'CH4', 'CO2', 'NH3']
 PARTS = {0: [[]], 1: [[1]], 2: [[2], [1, 1]], 3: [[3], [2, 1], [1, 2], [1, 1, 1]]}
 
 
-def _gen_A_surface(rng, cls=None, n_surf=None, op=None, nsites=None, has_ts=None, route=None, bulk=None):
+def _gen_A_surface(rng, cls=None, n_surf=None, op=None, nsites=None, has_ts=None, route=None, bulk=None,
+                   related=None):
     cls = cls or rng.choice(['ChemkinReaction', 'SurfaceReaction'])
     if n_surf is None:
         n_surf = rng.choice([0, 1, 2, 2, 3, 3] if cls == 'ChemkinReaction' else [0, 1, 1, 2, 2, 2, 3, 3, 3])
@@ -248,6 +279,9 @@ def _gen_A_surface(rng, cls=None, n_surf=None, op=None, nsites=None, has_ts=None
     skeys = sorted(sites)
     parts = list(rng.choice(PARTS[n_surf]))
     surf_names = rng.sample(SURF_POOL, len(parts) + 2)
+    # realistic related names: the free site 'PT' / 'PT(S)', adsorbates 'P', 'T', 'B', '(B)' ... are substrings /
+    # prefixes of the bulk species 'PT(B)' of their site; 'PT(B)H' contains it
+    related = (rng.random() < 0.4) if related is None else related
     gas_names = rng.sample(GAS_POOL, 4)
     site_of, species = {}, {}
     reactants = []
@@ -260,7 +294,16 @@ def _gen_A_surface(rng, cls=None, n_surf=None, op=None, nsites=None, has_ts=None
     for i, k in enumerate(parts):
         nm = surf_names[i]
         # with two sites, spread the reactants over them
-        add(nm, 'S', site=skeys[i % len(skeys)] if len(parts) > 1 else rng.choice(skeys))
+        site = skeys[i % len(skeys)] if len(parts) > 1 else rng.choice(skeys)
+        if related and (i == 0 or rng.random() < 0.5):
+            b = sites[site]['bulk']                 # e.g. 'PT(B)'
+            metal = b[:-3]
+            cands = [metal, metal[0], metal[1:], 'B', '(B)', metal + '(', b[1:], metal + '(S)', b + 'H', 'H' + b,
+                     b.lower()]
+            cands = [c for c in cands if c and c != b and c not in species and c not in surf_names]
+            if cands:
+                nm = rng.choice(cands[:7]) if rng.random() < 0.8 else rng.choice(cands)
+        add(nm, 'S', site=site)
         reactants.append([nm, rng.choice([k, float(k)])])
     ngas = rng.choice([1, 1, 2]) if n_surf == 0 else rng.choice([0, 0, 1, 1, 2])
     for i in range(ngas):
@@ -344,6 +387,21 @@ def directed(tier):
                       'bep': {'name': 'BEP_' + d, 'cls': bep_cls, 'slope': slope, 'intercept': [0.0, 22.5, 60.0][k % 3],
                               'descriptor': d, 'direction': 'synthesis' if bep_cls == 'omkm.BEP' else None},
                       'units': ['kcal/mol', 'eV'], 'bep_units': list(BEP_UNITS)})
+    # --- B2: one BEP object shared by a family of reactions, both evaluation orders
+    sib = {'species': {'CH3(S)': _nasa('CH3(S)', 'S', 4.0, -9000.0, 6.0), 'H(S)': _nasa('H(S)', 'S', 1.5, -4000.0, 1.0),
+                       'CH4': _nasa('CH4', 'G', 4.5, -2000.0, 22.0)},
+           'reactants': [['CH3(S)', 1], ['H(S)', 1]], 'products': [['CH4', 1]]}
+    for j, base in enumerate([c for c in D if c['kind'] == 'bep' and c['bep']['descriptor'] in ('delta_H', 'reactants_H')]):
+        for order in ([0, 1, 0], [1, 0, 1]):
+            c2 = copy.deepcopy(base)
+            c2['siblings'] = [copy.deepcopy(sib)]
+            c2['order'] = order
+            D.append(c2)
+    # --- B3: related names (surface species whose names are substrings of the bulk species of their site)
+    for i, cls in enumerate(('ChemkinReaction', 'SurfaceReaction', 'ChemkinReaction', 'SurfaceReaction')):
+        r = random.Random('C09-directed-names-%d' % i)
+        D.append(_gen_A_surface(r, cls=cls, n_surf=2 + i // 2, op=OPS[i], nsites=1 + i // 2, has_ts=False,
+                                route='no_entropy', bulk=bool(i % 2), related=True))
     # --- B3: n_surf x operation x class grid (deterministic generator seeds; pinned by construction)
     i = 0
     for cls in ('ChemkinReaction', 'SurfaceReaction'):
@@ -448,8 +506,9 @@ def install_probes(pr, ctx):
 
 
 # =========================================================================== factory
-def _build(spec, scale=None):
-    """Real objects from a spec.  scale = {site key: factor} multiplies site densities."""
+def _build(spec, scale=None, bep_obj=None):
+    """Real objects from a spec.  scale = {site key: factor} multiplies site densities; bep_obj = an existing
+    BEP object to use as the transition state (shared between a family of reactions)."""
     cls = spec['cls']
     sites = spec.get('sites') or {}
     site_of = spec.get('site_of') or {}
@@ -479,7 +538,9 @@ def _build(spec, scale=None):
             gl = [objs[n] for n in sorted(objs) if n not in site_of]
             if gl:
                 IdealGas(name='gas', species=gl)
-    if spec.get('bep'):
+    if spec.get('bep') and bep_obj is not None:
+        objs[spec['bep']['name']] = bep_obj
+    elif spec.get('bep'):
         b = spec['bep']
         kw = dict(slope=b['slope'], intercept=b['intercept'], name=b['name'], descriptor=b['descriptor'])
         if b['cls'] == 'omkm.BEP':
@@ -523,17 +584,19 @@ def _winner(c):
             return k
 
 
-def _check_clamp(ctx, rxn, spec, q, cand_by_rev, mag, cond, units, has_ts):
+def _check_clamp(ctx, rxn, spec, q, cand_by_rev, mag, cond, units, has_ts, mech_extra=None):
     """cand_by_rev[rev] = {'zero': 0, 'barrier': x, 'delta': y} (dimensionless)."""
     cls = spec['cls']
     T = cond['T']
+    mech_extra = mech_extra or {}
     for rev in (False, True):
         c = cand_by_rev[rev]
         want = max(c.values())
         win = _winner(c)
         ctx.cls('win:%s:%s:%s' % (q, 'rev' if rev else 'fwd', win))
         ctx.nontrivial(win != 'barrier' or rev)
-        m = {'clause': 'B1', 'cls': cls, 'q': q, 'form': 'dimless', 'rev': rev, 'has_ts': bool(has_ts), 'winner': win}
+        m = dict({'clause': 'B1', 'cls': cls, 'q': q, 'form': 'dimless', 'rev': rev, 'has_ts': bool(has_ts),
+                  'winner': win}, **mech_extra)
         g = ctx.call('B1', m, getattr(rxn, 'get_%soRT_act' % q), rev=rev, **cond)
         if g is not core.NOVALUE:
             ctx.close('B1', _f(g), want, 1e-10, m, scale=max(1.0, mag), candidates=c)
@@ -704,20 +767,45 @@ def _run_bep(spec, ctx, rxn, objs):
         cands = {False: {'zero': 0.0, 'barrier': Ef, 'delta': dH / RT},
                  True: {'zero': 0.0, 'barrier': Ef - dH / RT, 'delta': -dH / RT}}
         _check_clamp(ctx, rxn, spec, 'H', cands, scale_h / RT, cond, spec['units'], True)
-        # G: candidates from the reaction's own unclamped delta getter
+    # 6. Gibbs energy through the BEP "species": documented option entropy_state in {'reactants' (default),
+    #    'products', None}: S_TS = S(reactants) / S(products) / 0, G_TS = H_reactants + E_f/RT - S_TS
+    # (global conditions only: a block addressed to one species is stripped by the reaction before it calls the
+    #  BEP "species", so the BEP's own evaluation of S(reactants) would not see it -- C08's subject, not asserted)
+    condg = {k: v for k, v in cond.items() if not k.endswith('_kwargs')}
+    condg.setdefault('P', 1.0)          # SurfaceReaction.get_G_act defaults P to 1 bar (= the species' default)
+    Sx, magS = _states(ctx, 'B2', objs, spec, 'get_SoR', condg, rp)
+    Gx, magG = _states(ctx, 'B2', objs, spec, 'get_GoRT', condg, rp)
+    if Sx is None or Gx is None:
+        return
+    Ef = E_ref[False] / RT
+    scg = max(1.0, max(magG.values()), max(magS.values()), max(magH.values()), scale_k / RT)
+    for es in spec.get('entropy_states') or ['default', 'reactants', 'products', 'None']:
+        S_ts = {'default': Sx['reactants'], 'reactants': Sx['reactants'], 'products': Sx['products'], 'None': 0.0}[es]
+        kw = dict(condg)
+        if es != 'default':
+            kw['entropy_state'] = None if es == 'None' else es
+        ctx.cls('entropy_state:' + es)
+        G_ts = H['reactants'] + Ef - S_ts
+        m = dict(base, what='entropy_state', entropy_state=es)
+        g = ctx.call('B2', dict(m, via='BEP.get_SoR'), bep.get_SoR, reaction=rxn, **kw)
+        if g is not core.NOVALUE:
+            ctx.close('B2', _f(g), S_ts, TOL, dict(m, via='BEP.get_SoR'), scale=scg)
+        g = ctx.call('B2', dict(m, via='BEP.get_GoRT'), bep.get_GoRT, reaction=rxn, **kw)
+        if g is not core.NOVALUE:
+            ctx.close('B2', _f(g), G_ts, TOL, dict(m, via='BEP.get_GoRT'), scale=scg, H_reactants=H['reactants'],
+                      E_f_oRT=Ef, S_ts=S_ts)
         cg = {}
-        ok = True
         for rev in (False, True):
-            a = ctx.call('B1', {'clause': 'B1', 'cls': cls, 'q': 'G', 'what': 'delta_GoRT'}, rxn.get_delta_GoRT,
-                         rev=rev, act=True, **cond)
-            dlt = ctx.call('B1', {'clause': 'B1', 'cls': cls, 'q': 'G', 'what': 'delta_GoRT'}, rxn.get_delta_GoRT,
-                           rev=rev, act=False, **cond)
-            if core.NOVALUE in (a, dlt):
-                ok = False
-                break
-            cg[rev] = {'zero': 0.0, 'barrier': _f(a), 'delta': _f(dlt)}
-        if ok:
-            _check_clamp(ctx, rxn, spec, 'G', cg, scale_h / RT, cond, spec['units'], True)
+            ini, fin = ('products', 'reactants') if rev else ('reactants', 'products')
+            cg[rev] = {'zero': 0.0, 'barrier': G_ts - Gx[ini], 'delta': Gx[fin] - Gx[ini]}
+        if cls in ('ChemkinReaction', 'SurfaceReaction'):
+            _check_clamp(ctx, rxn, spec, 'G', cg, scg, kw, spec['units'][:1], True, {'entropy_state': es})
+        else:
+            for rev in (False, True):
+                mm = dict(m, via='get_GoRT_act', rev=rev)
+                g = ctx.call('B2', mm, rxn.get_GoRT_act, rev=rev, **kw)
+                if g is not core.NOVALUE:
+                    ctx.close('B2', _f(g), cg[rev]['barrier'], TOL, mm, scale=scg)
 
 
 # =========================================================================== B3
@@ -880,6 +968,17 @@ def _run_A_surface(spec, ctx, rxn, objs):
             k['units'] = units
         return ctx.call('B3', mech, r.get_A, **k)
 
+    if formula and n_surf > 0:
+        # classes of the cases whose A is actually compared with the formula
+        if any(n in bulk for n, _ in spec['reactants']):
+            ctx.cls('bulk_reactant:' + cls)
+        for n, _ in spec['reactants']:
+            if n in spec['site_of'] and n not in bulk:
+                b = spec['sites'][spec['site_of'][n]]['bulk']
+                if n != b and n in b:
+                    ctx.cls('names:substring_of_bulk:' + cls)
+                if n != b and (b in n or b.lower() == n.lower()):
+                    ctx.cls('names:superstring_of_bulk')
     variants = []       # (label, units argument, quantity, length)
     if cls == 'SurfaceReaction':
         from pmutt.omkm.units import Units
@@ -954,6 +1053,21 @@ def run_case(spec, ctx):
         rxn, objs = _build(spec)
     if kind == 'clamp':
         _run_clamp(spec, ctx, rxn, objs)
+    elif kind == 'bep' and spec.get('siblings'):
+        # ONE BEP object is the transition state of every reaction of the family; each reaction must see its
+        # own descriptor, whatever was evaluated before (order drawn in the spec, first reaction revisited)
+        ctx.cls('bep:shared')
+        bep = objs[spec['bep']['name']]
+        fam = [(spec, rxn, objs)]
+        for sb in spec['siblings']:
+            sub = dict(spec, species=sb['species'], reactants=sb['reactants'], products=sb['products'])
+            r2, o2 = _build(sub, bep_obj=bep)
+            fam.append((sub, r2, o2))
+        order = spec.get('order') or list(range(len(fam))) + [0]
+        ctx.cls('bep:shared:first=%s' % ('main' if order[0] == 0 else 'sibling'))
+        for i in order:
+            sub, r, o = fam[i]
+            _run_bep(sub, ctx, r, o)
     elif kind == 'bep':
         _run_bep(spec, ctx, rxn, objs)
     elif kind == 'A_reaction':
